@@ -65,7 +65,7 @@ ASSUMPTIONS = [
     'handles returned by the deferred open are closed before finalise/discard (all callers use with-statements)',
     'text payloads are ASCII without carriage returns and text-mode keyword arguments are limited to encoding="utf-8" / newline="\\n": '
     'append-mode finalisation re-reads the temp file in default text mode, so other encodings/newlines are outside the sound domain',
-    'mode a+ is not generated (docstring defines only w and a; the code finalises a+ as a replacement, see notes/C07.md)',
+    'mode a+ is generated since finding F22 (a+ finalised as a replacement) was fixed in /repo; VERIF_C07_APLUS=0 switches it off',
     're-open of a deferred path is limited to w->w, w->a, a->a with the same text/binary kind (a->w and r+ re-opens are unspecified)',
     'extra arguments of the deferred open are passed by keyword (extra positional arguments raise TypeError in open(), see notes/C07.md)',
     'r+ is only used on existing, not yet deferred paths; destination directories exist at finalise; destinations never look like #name.N#',
@@ -85,8 +85,8 @@ DIRS = ['', 'sub', 'sub/deep']
 NAMES = ['a.txt', 'b', 'cg.pdb', 'topol.top', 'x.tar.gz', '.hid', 'sp ace.itp', 'we#ird', 'é.dat']
 TEXT_ALPHA = 'abcxyzABC019 ;#.\n\n'
 MODES = ['w', 'a', 'w', 'a', 'wb', 'ab', 'w+', 'r+', 'wt', 'w+b', 'r+b', 'at']
-if os.environ.get('VERIF_C07_APLUS'):
-    # outside the sound domain (see ASSUMPTIONS / notes): a+ is finalised as a replacement by the code
+if os.environ.get('VERIF_C07_APLUS', '1') == '1':
+    # a+ used to be finalised as a replacement (finding F22, fixed in /repo 4ef4454); generated by default since then
     MODES = MODES + ['a+', 'a+b']
 
 
@@ -94,7 +94,7 @@ if os.environ.get('VERIF_C07_APLUS'):
 # sandbox: fresh directory, fresh writer state, own temp directory
 
 class Sandbox:
-    """root/work is the directory under test (cwd), `tmp` receives the temp
+    """root/n1/n2/n3/work is the directory under test (cwd), `tmp` receives the temp
     files of the deferred writer (tempfile.tempdir), on the same filesystem or
     (other_fs) under /tmp."""
 
@@ -108,8 +108,9 @@ class Sandbox:
         base = SHM if os.path.isdir(SHM) and os.access(SHM, os.W_OK | os.X_OK) else None
         self.root = os.path.realpath(tempfile.mkdtemp(prefix='c07_', dir=base))
         self.extra = None
-        self.work = os.path.join(self.root, 'work')
-        os.mkdir(self.work)
+        # nested so that a relative '../..' resolved against the wrong cwd (a defect this check looks for) stays inside root
+        self.work = os.path.join(self.root, 'n1', 'n2', 'n3', 'work')
+        os.makedirs(self.work)
         if self.other_fs and base is not None:
             self.extra = os.path.realpath(tempfile.mkdtemp(prefix='c07tmp_', dir='/tmp'))
             self.tmp = self.extra
@@ -137,7 +138,8 @@ class Sandbox:
 
     def snapshot(self):
         out = {}
-        for dirpath, dirnames, filenames in os.walk(self.work):
+        # walk the whole nest: a file written outside `work` shows up as '../name'
+        for dirpath, _, filenames in os.walk(os.path.join(self.root, 'n1')):
             for name in filenames:
                 full = os.path.join(dirpath, name)
                 if os.path.islink(full):
@@ -1118,18 +1120,18 @@ PARTS = [
          shrink_budget={'quick': 3, 'thorough': 6},
          floors={'gate-shut': 0.2, 'gate-open-with-warnings': 0.08}),
     Part('history', _run_history, strategy=_strategy_history,
-         examples={'quick': 3200, 'thorough': 60000},
+         examples={'quick': 2400, 'thorough': 60000},
          floors={'finalise-backup': 0.2, 'finalise-backup-occupied': 0.1, 'finalise-backup-gap': 0.03,
                  'finalise-append-existing': 0.1, 'discard-nonempty': 0.2, 'chdir-while-pending': 0.15,
                  'reopen-w->a': 0.03, 'reopen-w->w': 0.03, 'reopen-a->a': 0.03, 'open-r+': 0.05,
                  'temp-on-other-filesystem': 0.15, 'finalise-multi': 0.1}),
     Part('crash-points', _run_crash, strategy=_strategy_crash,
-         examples={'quick': 640, 'thorough': 8000},
+         examples={'quick': 480, 'thorough': 8000},
          floors={'between-backup-and-move': 0.3, 'append-to-existing': 0.12, 'several-files': 0.2,
                  'backup-slot-occupied': 0.15, 'fault-at-handle.write': 0.2, 'fault-at-os.remove': 0.2,
                  'temp-on-other-filesystem': 0.1}),
     Part('writers-defer', _run_writers, strategy=_strategy_writers,
-         examples={'quick': 320, 'thorough': 3000},
+         examples={'quick': 240, 'thorough': 3000},
          floors={'destination-preexists': 0.3, 'end-discard': 0.08, 'end-discard-then-finalise': 0.08, 'end-finalise': 0.3,
                  'writer-top': 0.15, 'writer-pdb': 0.15, 'writer-gro': 0.15, 'writer-dssp': 0.15, 'writer-contacts': 0.15,
                  'writer-contacts-direct': 0.15, 'writer-atomtypes': 0.1, 'writer-nbparams': 0.1}),
